@@ -129,6 +129,12 @@ def jobs(prop, tier):
         def RTM(cfg):
             return dict(mode="mc", cfg=cfg, kind="counter", module="OrdaRealtime.tla")
         rt = []
+        if prop == "C11":
+            # I->S: real parallel pushes with delayed database commands; the store-level writes are validated by TLC
+            st = dict(mode="trace", cfg="snap_store_trace", module="OrdaSnapStore.tla", tool="snapreplay", kind="list",
+                      why="the writes the server made to its store are not ones the specification of snapshots and user document allows")
+            rt = ([dict(st, args=["-stress", "120", "-seed", "{seed}"])] if q else
+                  [dict(st, args=["-stress", "1500", "-seed", "{seed}"]), dict(st, args=["-stress", "1500", "-seed", "{seed}3"])])
         if prop == "C18":
             rt = ([RT("rt_1k_edge", 0.04), RT("rt_2k_edge", 0.004), RTS(5, 40), RTM("rt_live_1k"), RTM("rt_live_2k")] if q else
                   [RT("rt_1k_edge", 1.0), RT("rt_2k_edge", 0.1), RTS(150, 60), RTM("rt_live_1k"), RTM("rt_live_2k"), RTM("rt_2k"), RTM("rt_3c"), RTM("rt_1k2")])
